@@ -343,7 +343,7 @@ func main() {
 		total := o.Count(4000, 200000)
 		modelled := 450
 		if o.Tier == "thorough" {
-			modelled = 20000
+			modelled = 9000
 		}
 		for c := 0; c < total; c++ {
 			caching := !r.Chance(0.15)
